@@ -113,6 +113,13 @@ MPFR_DIRECT = {
     "j1": lambda a, q: M.fn_n_x("jn", 1, a[0], q), "gammainc": _gammainc_upper,
 }
 
+def mpfr_direct(name, raws, q):
+    try:
+        return MPFR_DIRECT[name](raws, q)
+    except M.Out:
+        return None
+
+
 INT_FIRST = {"besselj", "bessely"}       # MPFR versions need an integer order
 
 
@@ -128,12 +135,50 @@ def arg_top(a):
 def structure_args(d, name, p, scale_max):
     """catalogue arguments plus structure classes: scaled up, near negative integers / poles, half-integers"""
     args = cat.gen_args(d, name, p, long_bits=d.choice([0, 0, 0, 2 * p]))
-    k = d.weighted([(6, "plain"), (3, "scaled"), (3, "near_int"), (2, "halfint"), (2, "tiny")])
+    k = d.weighted([(6, "plain"), (3, "scaled"), (3, "near_int"), (2, "halfint"), (2, "tiny"), (1, "zero"), (2, "near_equal"),
+                    (2, "near_small_int")])
     spec = cat.FUNCS[name][0]
     idx = [i for i, ch in enumerate(spec) if ch in "zxpt"]
     if not idx or k == "plain":
         return args, "plain"
     i = d.choice(idx)
+    if k == "zero":
+        if spec[i] in "zx":
+            args[i] = ["mpf", J(fzero)]
+            return args, k
+        return args, "plain"
+    if k == "near_equal":
+        # two real arguments nearly equal: x_j = x_i (1 +- 2^-kk), optionally both scaled up
+        real_idx = [j for j in idx if args[j][0] == "mpf"]
+        if len(real_idx) < 2:
+            return args, "plain"
+        i, j = real_idx[0], real_idx[1]
+        if len(real_idx) > 2 and d.bool():
+            i, j = real_idx[-2], real_idx[-1]
+        r = U(args[i][1])
+        if not r[1]:
+            return args, "plain"
+        sc = d.choice([0, 0, 10, 30, 60])
+        r = (r[0], r[1], r[2] + sc, r[3])
+        kk = d.int(3, 2 * p)
+        t = d.choice([1, -1, 3, 0, 0, 0]) or (2 * d.int(0, 1 << d.int(1, 12)) + 1) * d.choice([1, -1])
+        m2 = (r[1] << (kk + t.bit_length())) + t * r[1]
+        kk += t.bit_length()
+        args[i] = ["mpf", J(r)]
+        args[j] = ["mpf", J(exact.mk(r[0], m2, r[2] - kk))]
+        if len(real_idx) > 2 and d.bool():
+            args[real_idx[-1]] = args[j]
+        return args, k
+    if k == "near_small_int":
+        # within 2^-kk of 1, 2, 3 (zeros of loggamma, poles/zeros of many others) or of -1, 0
+        n = d.choice([1, 2, 1, 2, 3, 0, -1])
+        if spec[i] == "p" and n <= 0:
+            n = 1
+        kk = d.int(8, 2 * p)
+        m = (abs(n) << kk) + d.choice([1, -1]) if n else 1
+        v = exact.mk(1 if n < 0 else 0, m, -kk)
+        args[i] = ["mpf", J(v)]
+        return args, k
     ty, v = args[i]
     def mod_real(t):
         r = U(t)
@@ -212,8 +257,9 @@ def reference(name, args, p, kwargs=None):
                 raws.append(r)
         if ok:
             try:
-                v = MPFR_DIRECT[name](raws, q)
-            except M.Out:
+                # in the helper process: some MPFR functions (gamma_inc, zeta, jn with extreme arguments) loop for ever in C
+                v = M.SERVER.call("vfw.props._special", "mpfr_direct", (name, raws, q), timeout=10.0)
+            except (M.Hang, M.RemoteError):
                 v = None
             if v is not None and v != fnan and v not in (finf, fninf):
                 return (v, fzero), "mpfr"
@@ -274,8 +320,8 @@ def check_function(res, mp, name, args, p, kwargs=None, tl=20.0, bucket_extra=""
         if not ok:
             cplx = any(a[0] == "mpc" for a in args)
             band = "lowp" if p < 30 else "p"
-            gross = ":gross" if worst >= p - 3 else ""
-            res.bad("acc:%s:%s:%s%s%s" % (name, "cplx" if cplx else "real", band, bucket_extra, gross),
+            kind = "gross" if worst >= p - 3 else "acc"      # gross = (almost) no correct bits; never covered by function-level findings
+            res.bad("%s:%s:%s:%s%s" % (kind, name, "cplx" if cplx else "real", band, bucket_extra),
                     "%s = %s; reference[%s] (%s, %s); error about 2^%d ulp" % (
                 what, str(r)[:120], how, exact.raw_str(ref[0])[:70], exact.raw_str(ref[1])[:70], worst))
     finally:
